@@ -1,7 +1,7 @@
 (* Extraction of the executable model to OCaml.  ExtrOcamlBasic only: bool, option, list,
    prod, unit, sumbool map to OCaml's; N / positive / nat / Z stay inductive. *)
 From Coq Require Import Extraction ExtrOcamlBasic ZArith.
-From QwtModel Require Import Outcome ListX Seq QVec RSQ QWT Words BitVec RSBin DArrayM.
+From QwtModel Require Import Outcome ListX Seq QVec RSQ QWT Words BitVec RSBin DArrayM Huff Serde.
 Extraction Language OCaml.
 Extraction "model.ml"
   N.add N.mul N.sub N.div N.modulo N.eqb N.ltb N.leb N.of_nat N.to_nat N.div_eucl N.pow
@@ -19,4 +19,7 @@ Extraction "model.ml"
   bv_from_bools bv_from_positions bvm_with_zeros bvit_next bvit_len bvinto_next pi_new pi_with_pos pi_next pi_collect bv_abs
   rsn_new rsn_rank1 rsn_rank0 rsn_rank1_unchecked rsn_n_ones rsn_n_zeros rsn_select1 rsn_select0 rsn_select_unchecked rsn_get
   rsw_new rsw_rank1 rsw_rank0 rsw_rank1_unchecked rsw_rank0_unchecked rsw_n_ones rsw_n_zeros_q rsw_select1 rsw_select0 rsw_select_unchecked rsw_get
+  craft4 craft2 hq_build hq_new hq_len hq_get hq_get_unchecked hq_rank hq_rank_unchecked hq_select hq_select_unchecked hq_rank_prefetch hq_rank_prefetch_unchecked
+  wt_build hwt_new wt_get wt_get_unchecked wt_rank wt_rank_unchecked wt_select wt_select_unchecked rev_frags
+  encode decode wt
   da_new da_select1 da_select0 da_len da_count_ones da_count_zeros da_get da_from_positions da_from_bools.
